@@ -68,7 +68,7 @@ CHECKS.update({
          "Reference is the inherent method (itself decided by C01-C13); float default methods and Uint shift amounts above usize not asserted.", "DESIGN.md 4 C20"),
 })
 CHECKS.update({
- "C04": ("property-based testing: stateful register-machine histories over 158 safe producers with an invariant after every step (proptest, op lists shrunk as one value) + exhaustive pairs x producers for tiny widths + generated programs compiled with rustc for ill-formed (BITS,LIMBS) pairs",
+ "C04": ("property-based testing: stateful register-machine histories over 171 safe producers with an invariant after every step (proptest, op lists shrunk as one value) + exhaustive pairs x producers for tiny widths + generated programs compiled with rustc for ill-formed (BITS,LIMBS) pairs",
          "Exploration: after every step of generated call histories every register is canonical and ==, Hash, cmp, <, <=, min, max, is_zero agree with the integers; Part B compiles and runs probe programs that try to obtain a value of an ill-formed Uint<BITS,LIMBS> through 60 constants/constructors x 21 ill-formed pairs (quick: seeded sample; thorough: full product), each with control twins.",
          "No model of operation semantics is kept (cannot alarm about anything but the invariant); catalogue of producers/constructors is fixed; rustc trusted.", "DESIGN.md 4 C04"),
  "C19": ("property-based testing over generated programs: literals from a proptest strategy with a reference literal model, compiled with rustc against the working tree; run-time differential against from_str_radix and the model; metamorphic pass-through relation; shrinking by recompiling single-literal programs",
